@@ -97,6 +97,7 @@ def run(ctx):
     c10_derived(ctx)
     c10_4(ctx)
     c10_1b(ctx)
+    c10_finalize_limit(ctx)
 
 
 def _rejected_returns(b):
@@ -347,3 +348,43 @@ def c10_1b(ctx):
     ctx.ob(R, "no-allocator-rollback:compressed", not bad,
            "BlockBuilder never rolls the Allocator back while its incremental Serializer is live", found=bad or None)
     ctx.floor(R, "restore_checkpoint callers seen in the workspace (rule is live)", len(callers), 1)
+
+
+def c10_finalize_limit(ctx):
+    """admission rejects a batch iff the resulting cost would be `> max` (C10.3), so a block whose cost lands exactly on the
+    limit has been accepted; finalize must emit it.  finalize's own limit test is therefore the same non-strict bound:
+    it proceeds iff total <= max (an `>=` / `<` there refuses, or aborts on, an accepted block)."""
+    from .. import apnf
+    R = "C10.3"
+    fb = ctx.fb
+    for nm, path in (("compressed", CB + "::finalize"), ("interned", IB + "::finalize")):
+        f = _find(fb, path)
+        if not f:
+            ctx.missing(R, "finalize-limit:" + nm, "finalize not found")
+            continue
+        b = Body(f, fb)
+        ctx.touched(b.path)
+        tests = {}
+        for node in b.edge_info:
+            sb = b.edge_info[node][0]
+            if sb not in b.reach:
+                continue
+            t, lab = b.edge_condition(node)
+            nt = apnf.N(t)
+            if isinstance(nt, tuple) and len(nt) == 3 and nt[0] in ("Le", "Lt", "Gt", "Ge") and "max_block_cost" in str(nt) and lab[0] == "bool":
+                tests.setdefault(sb, {"t": nt})[lab[1]] = b.reachable_avoiding(node, b.ok_exits(), [])
+        ok = len(tests) == 1
+        detail = None
+        if ok:
+            (sb, d), = tests.items()
+            nt = d["t"]
+            detail = {"op": nt[0], "true->ok": d.get(True), "false->ok": d.get(False), "bound-on-the-right": "max_block_cost" in str(nt[2])}
+            bound_right = "max_block_cost" in str(nt[2]) and "max_block_cost" not in str(nt[1])
+            if nt[0] == "Le":
+                ok = bound_right and d.get(True) is True and d.get(False) is False
+            elif nt[0] == "Gt":
+                ok = bound_right and d.get(False) is True and d.get(True) is False
+            else:
+                ok = False
+        ctx.ob(R, "finalize-limit:" + nm, ok, "%s finalize proceeds iff total cost <= max block cost (non-strict, as admission)" % nm,
+               found=detail, where=f.sp)
